@@ -31,6 +31,22 @@ CLAIMED = {
             "Trusted: the ~100-line RFC 6962 reference, SimKV's crash model (atomic loss of un-flushed writes; partial survival only without reset/fork in the window), SHA-256 from the sha2 crate."),
 }
 
+SMT_NOTE = "Trusted: the ~150-line compact-SMT reference (root/prove/verify by recursion on the bit index), SimKV's crash model (one atomic batch per completed tree operation), SHA-256 from the sha2 crate, collision resistance."
+CLAIMED.update({
+    "C12": ("merkle-sparse", "DESIGN.md §6 C12, §4.3",
+            "deterministic simulation: seeded insert/overwrite/delete histories with injected store errors, root compared after every step with a compact-SMT reference over the model map",
+            "Seeded search over histories on clustered keys, on the storage-backed tree over a fault-injecting node store and the in-memory tree; every step compared with an independent compact-SMT reference; the four set constructors compared on shuffled maps. Sampling, not enumeration.",
+            SMT_NOTE),
+    "C13": ("merkle-sparse", "DESIGN.md §6 C13, §4.3",
+            "deterministic simulation with crash/restart injection: restart from persisted nodes at every point of every history; crash (atomic / partial survival) and lost-node faults judged by a fail-stop oracle",
+            "Every history point is a simulated restart: load from the cloned node store, compare all proofs with the original and with a map-derived reference, replay the following operations on the reloaded tree. Crashes inside operations and lost durable nodes must fail-stop. Sampling, not enumeration.",
+            SMT_NOTE),
+    "C14": ("merkle-sparse", "DESIGN.md §6 C14, §4.3",
+            "deterministic simulation: proofs from history-built trees shipped through a seeded corrupting channel; library verdict compared with an independent compact-tree verifier; no false statement may be accepted",
+            "Honest proofs checked for kind, content and (non-)verification against all pool keys/values; corrupted tuples (12 corruption kinds, stale roots) checked against an independent recomputation and against the truth of the model map. Sampling, not enumeration.",
+            SMT_NOTE),
+})
+
 PLANNED = {
 }
 
